@@ -341,5 +341,6 @@ func c05R4(p *engine.Prog, r *engine.Report) {
 	// ---------------- R5: nobody else pays — admission covers the full cost; a failed call leaves no buffer behind
 	totalCostNoBypassRule(p, r, "C05-R5")
 	envResetPrecedesRule(p, r, "C05-R5")
+	chargedCostRule(p, r, "C05-R5")
 	r.Floor("C05-R5", 2, "total cost + reset")
 }
